@@ -65,17 +65,17 @@ Qed.
 Lemma import_z fuel st c0 cs d0 :
   is_zstd hd = true -> cks = c0 :: cs ->
   r_err st = 0 -> fh_ok' st -> fresh st -> r_dict st = None ->
-  0 < c_ulen c0 -> 0 < c_clen c0 -> c_clen c0 < two64 -> c_start c0 = 0 -> c_clen c0 <= len b ->
-  bytes_eqb (H (h_chash hd) (stored b c0)) (c_digest c0) = true ->
+  0 < c_ulen c0 -> c_clen c0 < two64 -> c_start c0 = 0 -> c_clen c0 <= len b ->
+  (if c_clen c0 =? 0 then all_zero (c_digest c0) else bytes_eqb (H (h_chash hd) (stored b c0)) (c_digest c0)) = true ->
   zdecomp None (stored b c0) (c_ulen c0) = Some d0 -> len d0 = c_ulen c0 ->
   (N.to_nat (c_clen c0) + 4 <= fuel)%nat ->
   exists st1, import_dict H zdecomp hd fuel (set_started (comp_reset (seek f st (data_offset hd))) true) = (true, st1) /\
               r_err st1 = 0 /\ r_dict st1 = Some d0 /\ fh_ok' st1 /\ r_chash st1 = Some [].
 Proof.
-  intros Hz Eck He Hfh (F1 & F2 & F3 & F4) Hdn Hu Hc Hcl Hst Hb Hok Hzd Hld Hfuel.
+  intros Hz Eck He Hfh (F1 & F2 & F3 & F4) Hdn Hu Hcl Hst Hb Hok Hzd Hld Hfuel.
   assert (Hfu : first_ulen hd = c_ulen c0) by (unfold first_ulen; now rewrite Eck).
   assert (Hsk : skip0 c0 = false).
-  { unfold skip0. destruct (N.eqb_spec (c_clen c0) 0); [lia|reflexivity]. }
+  { unfold skip0. destruct (N.eqb_spec (c_ulen c0) 0); [lia|apply andb_false_r]. }
   unfold import_dict. unfold comp_reset, seek. rsimpl. rewrite He. change (0 <? 0) with false. cbv iota.
   rewrite Hfu. destruct (N.eqb_spec (c_ulen c0) 0) as [E|_]; [lia|].
   unfold comp_read_nd. rsimpl. rewrite He. change (0 <? 0) with false. cbn [negb]. cbv iota.
@@ -86,9 +86,9 @@ Proof.
   rewrite (comp_loop_null false (c_ulen c0) st' c0 cs fuel Hu Hfr eq_refl Eck Hsk).
   edestruct (zread H zdecomp hd f Hz false (c_ulen c0) c0 cs d0 (N.to_nat (c_clen c0)) (S fuel)
                    (set_chash (set_idx st' (c0 :: cs)) (Some [])) 0)
-    as (st2 & Hr & P1 & P2 & P3 & P4 & P5 & P6); unfold st', set_chash, set_idx; rsimpl; rewrite ?F2, ?F3; try reflexivity; try assumption; try lia.
+    as (st2 & Hr & P1 & P2 & P3 & P4 & P5 & P6 & P7); unfold st', set_chash, set_idx; rsimpl; rewrite ?F2, ?F3; try reflexivity; try assumption; try lia.
   - now left.
-  - destruct (N.eqb_spec (c_clen c0) 0); [lia|]. unfold stored in Hok. now rewrite Hst in Hok.
+  - unfold stored in Hok. now rewrite Hst in Hok.
   - unfold stored in Hzd. now rewrite Hst in Hzd.
   - unfold st', set_chash, set_idx in Hr. rsimpl. rewrite ?F2, ?F3 in Hr. rewrite Hr. rewrite Hld, N.eqb_refl.
     unfold st', set_chash, set_idx in P1, P2, P3. rsimpl.
@@ -140,7 +140,9 @@ Lemma nread (ud : bool) n st c next off fuel :
   r_dc st = [] -> r_data st = [] -> r_eof st = false -> r_idx st = c :: next -> r_loc st = 0 ->
   r_rest st = dropN off b -> off + n <= len b -> fh_ok' st ->
   exists st', comp_loop H zdecomp hd fuel ud n st [] false = (ROk (sub b off n), st') /\
-    r_err st' = r_err st /\ r_dict st' = r_dict st /\ r_started st' = r_started st /\ fh_ok' st'.
+    r_err st' = r_err st /\ r_dict st' = r_dict st /\ r_started st' = r_started st /\ fh_ok' st' /\
+    r_idx st' = c :: next /\ r_loc st' = n /\ r_dc st' = [] /\ r_data st' = [] /\
+    r_chash st' = Some (match r_chash st with Some x => x | None => [] end ++ sub b off n).
 Proof.
   intros Hnz Hfuel Hpos Hcl Hlt Hdc Hdat Heof Hidx Hloc Hrest Hb Hfh.
   destruct fuel as [|[|[|fuel]]]; try lia. cbn [comp_loop].
@@ -172,8 +174,10 @@ Proof.
   rewrite E2.
   match goal with |- context [comp_step H zdecomp hd ud n ?s [] false] => set (s2 := s) end.
   rewrite (stepA H zdecomp hd ud n s2 src false Hpos eq_refl Hls).
-  eexists. split; [reflexivity|]. unfold s2. rsimpl. repeat split; try reflexivity.
-  destruct Hfh' as [Hu|Hne]; [now left|right]. destruct fh' as [x|]; [now exists x|congruence].
+  eexists. split; [reflexivity|]. unfold s2, s1, set_dc. rsimpl.
+  split; [reflexivity|]. split; [reflexivity|]. split; [reflexivity|]. split.
+  { destruct Hfh' as [Hu|Hne]; [now left|right]. destruct fh' as [x|]; [now exists x|congruence]. }
+  split; [reflexivity|]. split; [rewrite Hloc; fold src; lia|]. split; [reflexivity|]. split; [reflexivity|]. reflexivity.
 Qed.
 
 Lemma import_n fuel st c0 cs :
@@ -197,7 +201,7 @@ Proof.
   assert (Hfr : fresh st') by (unfold st', fresh; rsimpl; repeat split; assumption).
   rewrite (comp_loop_null false (c_ulen c0) st' c0 cs fuel Hu Hfr eq_refl Eck Hsk).
   edestruct (nread false (c_ulen c0) (set_chash (set_idx st' (c0 :: cs)) (Some [])) c0 cs 0 (S fuel) Hnz)
-    as (st2 & Hr & P1 & P2 & P3 & P5); unfold st', set_chash, set_idx; rsimpl; rewrite ?F2, ?F3; try reflexivity; try assumption; try lia.
+    as (st2 & Hr & P1 & P2 & P3 & P5 & _); unfold st', set_chash, set_idx; rsimpl; rewrite ?F2, ?F3; try reflexivity; try assumption; try lia.
   unfold st', set_chash, set_idx in Hr. rsimpl. rewrite ?F2, ?F3 in Hr. rewrite Hr.
   assert (Hls : len (sub b 0 (c_ulen c0)) = c_ulen c0) by (apply len_sub; lia).
   rewrite Hls, N.eqb_refl.
@@ -211,28 +215,42 @@ Lemma request_data_n fuel st k c next :
   is_zstd hd = false -> skipn k cks = c :: next ->
   r_err st = 0 -> fh_ok' st -> (first_ulen hd = 0 \/ r_dict st <> None) ->
   0 < c_ulen c -> c_clen c = c_ulen c -> c_clen c < two64 -> c_start c + c_clen c <= len b ->
+  bytes_eqb (H (h_chash hd) (stored b c)) (c_digest c) = true ->
   (3 <= fuel)%nat ->
   exists st', zck_get_chunk_data H zdecomp hd f fuel st k (c_ulen c) = (ROk (stored b c), st') /\
               r_err st' = 0 /\ fh_ok' st' /\ r_dict st' = r_dict st.
 Proof.
-  intros Hnz Hsk He Hfh Hd Hu Hcu Hcl Hb Hfuel.
+  intros Hnz Hsk He Hfh Hd Hu Hcu Hcl Hb Hok Hfuel.
   unfold zck_get_chunk_data. rewrite Hsk, He. change (0 <? 0) with false. cbv iota.
   destruct (N.eqb_spec (c_ulen c) 0) as [E|_]; [lia|].
   assert (Hcond : (0 <? first_ulen hd) && match r_dict st with None => true | Some _ => false end = false).
   { destruct Hd as [->|Hd]; [reflexivity|]. destruct (r_dict st); [apply andb_false_r|congruence]. }
   rewrite Hcond.
-  unfold comp_init, comp_reset, reset_comp_data. rsimpl. rewrite He. change (0 <? 0) with false. cbv iota. rsimpl.
-  unfold comp_read, seek. rsimpl. rewrite He. change (0 <? 0) with false. cbn [negb]. cbv iota.
-  destruct (N.eqb_spec (c_ulen c) 0) as [E|_]; [lia|].
-  assert (Hcond2 : (match k with O => false | _ => true end) && (0 <? first_ulen hd) && match r_dict st with None => true | Some _ => false end = false).
-  { rewrite <- andb_assoc, Hcond. apply andb_false_r. }
-  rewrite Hcond2.
-  set (st0 := set_idx _ _).
-  edestruct (nread (match k with O => false | _ => true end) (c_ulen c) st0 c next (c_start c) fuel Hnz Hfuel)
-    as (st' & Hr & P1 & P2 & P3 & P5); unfold st0, set_idx, set_rest; rsimpl; try reflexivity; try assumption; try lia.
+  unfold comp_init, comp_reset, reset_comp_data. rsimpl. rewrite He. change (0 <? 0) with false. cbv iota. rsimpl. cbv zeta.
+  match goal with |- context [comp_read H zdecomp hd fuel ?s _ _] => set (st3 := s) end.
+  set (ud := match k with O => false | _ => true end).
+  assert (Hcr : comp_read H zdecomp hd fuel st3 (c_ulen c) ud = comp_loop H zdecomp hd fuel ud (c_ulen c) st3 [] false).
+  { unfold comp_read, st3, seek. rsimpl. rewrite He. change (0 <? 0) with false. cbn [negb]. cbv iota.
+    destruct (N.eqb_spec (c_ulen c) 0) as [E|_]; [lia|].
+    assert (Hcond2 : ud && (0 <? first_ulen hd) && match r_dict st with None => true | Some _ => false end = false).
+    { rewrite <- andb_assoc, Hcond. apply andb_false_r. }
+    rewrite Hcond2. reflexivity. }
+  rewrite Hcr.
+  edestruct (nread ud (c_ulen c) st3 c next (c_start c) fuel Hnz Hfuel)
+    as (st' & Hr & P1 & P2 & P3 & P5 & Q1 & Q2 & Q3 & Q4 & Q5); unfold st3, seek, set_idx, set_chash, set_rest; rsimpl; try reflexivity; try assumption; try lia.
   - unfold body, data_offset. now rewrite dropN_dropN.
-  - exists st'. split; [|split; [rewrite P1; exact He|split; [exact P5|exact P2]]].
-    replace (stored b c) with (sub b (c_start c) (c_ulen c)) by (unfold stored; now rewrite Hcu). exact Hr.
+  - unfold st3, seek, set_idx, set_chash, set_rest in Hr, P1, P2, Q5. rsimpl. rewrite Hr.
+    rewrite N.leb_refl, Q1, Nat.eqb_refl. cbn [andb]. rewrite Q2, <- Hcu, N.eqb_refl, Q3. cbn [andb].
+    rewrite P1, He. change (0 <? 0) with false. cbv iota.
+    assert (Hsto : sub b (c_start c) (c_ulen c) = stored b c) by (unfold stored; now rewrite Hcu).
+    unfold end_dchunk, validate_current. rewrite Q5. cbn [app]. rewrite Hsto.
+    assert (Hokif : (if c_clen c =? 0 then all_zero (c_digest c) else bytes_eqb (H (h_chash hd) (stored b c)) (c_digest c)) = true).
+    { destruct (N.eqb_spec (c_clen c) 0); [lia|exact Hok]. }
+    rewrite Hokif. unfold backend_end_dchunk, zstd. rewrite Hnz. unfold set_chash. rsimpl. rewrite Q2, Hcu, N.eqb_refl. rewrite ?Hsto.
+    eexists. split; [reflexivity|].
+    destruct next as [|c1 nx]; unfold set_eof, set_chash, set_idx, set_data; rsimpl;
+      (split; [rewrite P1; exact He|split; [|exact P2]]);
+      (destruct P5 as [Hu5|[fh Hf5]]; [now left|right; exists fh; exact Hf5]).
 Qed.
 
 Lemma stored_req st k c next :
@@ -289,7 +307,6 @@ Hypothesis Hstarts : starts_ok 0 cks.
 Hypothesis Htot : data_total cks < two64.
 Hypothesis Hver : spec_verify H hd f = true.
 Hypothesis Hdec : spec_decode zdecomp hd f = Some content.
-Hypothesis Hph : zs = true -> forall c, In c cks -> c_clen c = 0 -> c_ulen c = 0.
 Hypothesis Hfuel : forall c, In c cks -> (N.to_nat (c_clen c) + 4 <= fuel)%nat.
 
 Definition InvR (dspec : option bytes) (st : rstate) : Prop :=
@@ -307,13 +324,20 @@ Proof.
   assert (Hfu : first_ulen hd = c_ulen c0) by (unfold first_ulen; now rewrite Eck).
   destruct (chunk_sizes H zdecomp hd f Hstarts Htot [] c0 cs Eck) as [_ Hst0]. cbn in Hst0.
   assert (Hok : forall c, In c cks -> c_start c + c_clen c <= len b /\
-                 (c_clen c <> 0 -> bytes_eqb (H (h_chash hd) (stored b c)) (c_digest c) = true)).
+                 (c_clen c <> 0 -> bytes_eqb (H (h_chash hd) (stored b c)) (c_digest c) = true) /\
+                 (0 < c_ulen c -> (if c_clen c =? 0 then all_zero (c_digest c)
+                                   else bytes_eqb (H (h_chash hd) (stored b c)) (c_digest c)) = true)).
   { pose proof Hver as Hv. unfold spec_verify in Hv. apply andb_true_iff in Hv. destruct Hv as [Hc _]. unfold chunks_ok in Hc.
     rewrite Eck in *. apply andb_true_iff in Hc. destruct Hc as [Hc0 Hcs].
     assert (Hg : forall fl c, chunk_ok H hd b fl c = true -> c_start c + c_clen c <= len b /\
-                 (c_clen c <> 0 -> bytes_eqb (H (h_chash hd) (stored b c)) (c_digest c) = true)).
+                 (c_clen c <> 0 -> bytes_eqb (H (h_chash hd) (stored b c)) (c_digest c) = true) /\
+                 (0 < c_ulen c -> (if c_clen c =? 0 then all_zero (c_digest c)
+                                   else bytes_eqb (H (h_chash hd) (stored b c)) (c_digest c)) = true)).
     { intros fl c Hc. unfold chunk_ok in Hc. apply andb_true_iff in Hc. destruct Hc as [Hb Hh]. apply N.leb_le in Hb.
-      split; [exact Hb|]. intros Hne. destruct (N.eqb_spec (c_clen c) 0); [contradiction|exact Hh]. }
+      split; [exact Hb|]. split.
+      - intros Hne. destruct (N.eqb_spec (c_clen c) 0); [contradiction|exact Hh].
+      - intros Hu. destruct (N.eqb_spec (c_clen c) 0); [|exact Hh].
+        destruct (N.eqb_spec (c_ulen c) 0); [lia|]. rewrite andb_false_r in Hh. exact Hh. }
     intros c [<-|Hin]; [exact (Hg true _ Hc0)|]. rewrite forallb_forall in Hcs. exact (Hg false c (Hcs c Hin)). }
   (* the specification's dictionary and the decoding of every entry *)
   pose proof Hdec as Hd. unfold spec_decode in Hd.
@@ -334,11 +358,6 @@ Proof.
   assert (Hds0 : c_ulen c0 = 0 -> dspec = None).
   { intros Hu0. unfold spec_dict in Edict. rewrite Eck in Edict. destruct ((c_clen c0 =? 0) && (c_ulen c0 =? 0)); [congruence|].
     destruct (decode_chunk zdecomp zs None c0 (stored b c0)); [|discriminate]. rewrite Hu0 in Edict. cbn in Edict. congruence. }
-  (* no entry without stored bytes declares a size *)
-  assert (Hph' : forall c, In c cks -> c_clen c = 0 -> c_ulen c = 0).
-  { destruct zs eqn:Ez; [exact (Hph eq_refl)|]. intros c Hin Hc0. rewrite Eck in Hin. destruct Hin as [<-|Hin].
-    - destruct (N.eq_dec (c_ulen c0) 0) as [|Hne]; [assumption|]. destruct (Hd0 ltac:(lia)) as (d0 & _ & _ & Hcu & _). lia.
-    - destruct (Hdcs c Hin) as (d & _ & Hcu & _). lia. }
   (* a request for data on a context whose dictionary is in place *)
   assert (Hready : forall st k c next, skipn k cks = c :: next -> 0 < c_ulen c ->
             r_err st = 0 -> fh_ok hd st -> (zs = true -> r_chash st = None \/ r_chash st = Some []) ->
@@ -346,8 +365,7 @@ Proof.
             exists d st', zck_get_chunk_data H zdecomp hd f fuel st k (c_ulen c) = (ROk d, st') /\
               len d = c_ulen c /\ spec_chunk_data zdecomp hd f k = Some d /\ InvR dspec st').
   { intros st k c next Hsk Hu He Hfh Hch Hdd Hdr.
-    pose proof (skipn_in' k cks c next Hsk) as Hin. destruct (Hok c Hin) as [Hb Hh].
-    assert (Hcl : c_clen c <> 0) by (intros E; pose proof (Hph' c Hin E); lia). specialize (Hh Hcl).
+    pose proof (skipn_in' k cks c next Hsk) as Hin. destruct (Hok c Hin) as (Hb & Hh & Hokif). specialize (Hokif Hu).
     pose proof (clen_le_total' c cks Hin) as Hle. pose proof (Hfuel c Hin) as Hfc.
     assert (Hsd : spec_chunk_data zdecomp hd f k = decode_chunk zdecomp zs (match k with O => None | _ => dspec end) c (stored b c)).
     { unfold spec_chunk_data. now rewrite Edict, Hsk. }
@@ -363,11 +381,12 @@ Proof.
         destruct (zdecomp (match k with O => None | _ => dspec end) (stored b c) (c_ulen c)) as [x|]; [|discriminate].
         destruct (len x =? c_ulen c); [congruence|discriminate]. }
       destruct (request_data H zdecomp hd f Ez fuel st k c next d Hsk (conj He (conj Hfh (Hch eq_refl))) Hdr
-                  Hu ltac:(lia) ltac:(lia) Hb Hh Hzd Hsz ltac:(lia)) as (st' & Hr & (R1 & R2 & R3) & R4 & R5).
+                  Hu ltac:(lia) Hb Hokif Hzd Hsz ltac:(lia)) as (st' & Hr & (R1 & R2 & R3) & R4 & R5).
       exists d, st'. split; [exact Hr|]. split; [exact Hsz|]. split; [reflexivity|].
       split; [exact R1|]. split; [exact R2|]. split; [intros _; exact R3|]. left. rewrite R5. split; assumption.
     - destruct Hsz as [Hcu ->].
-      destruct (request_data_n H zdecomp hd f fuel st k c next Ez Hsk He Hfh Hdr Hu ltac:(lia) ltac:(lia) Hb ltac:(lia))
+      assert (Hcl : c_clen c <> 0) by lia.
+      destruct (request_data_n H zdecomp hd f fuel st k c next Ez Hsk He Hfh Hdr Hu ltac:(lia) ltac:(lia) Hb (Hh Hcl) ltac:(lia))
         as (st' & Hr & R1 & R2 & R3).
       exists (stored b c), st'. split; [exact Hr|]. split; [unfold stored; rewrite len_sub by exact Hb; lia|]. split; [reflexivity|].
       split; [exact R1|]. split; [exact R2|]. split; [intros X; congruence|]. left. rewrite R3. split; assumption. }
@@ -377,14 +396,13 @@ Proof.
               r_err st1 = 0 /\ fh_ok hd st1 /\ (zs = true -> r_chash st1 = None \/ r_chash st1 = Some []) /\
               r_dict st1 = dspec /\ r_dict st1 <> None).
   { intros st He Hfh Hf0 Hdn Hfr. rewrite Hfu in Hf0. destruct (Hd0 Hf0) as (d0 & Ed0 & Eds & Hsz).
-    assert (Hin : In c0 cks) by (rewrite Eck; now left). destruct (Hok c0 Hin) as [Hb Hh].
-    assert (Hcl : c_clen c0 <> 0) by (intros E; pose proof (Hph' c0 Hin E); lia). specialize (Hh Hcl).
+    assert (Hin : In c0 cks) by (rewrite Eck; now left). destruct (Hok c0 Hin) as (Hb & Hh & Hokif). specialize (Hokif Hf0).
     pose proof (clen_le_total' c0 cks Hin) as Hle. pose proof (Hfuel c0 Hin) as Hfc. rewrite Hst0 in Hb.
     destruct zs eqn:Ez.
     - assert (Hzd : zdecomp None (stored b c0) (c_ulen c0) = Some d0).
       { unfold decode_chunk in Ed0. destruct (zdecomp None (stored b c0) (c_ulen c0)) as [x|]; [|discriminate].
         destruct (len x =? c_ulen c0); [congruence|discriminate]. }
-      destruct (import_z H zdecomp hd f fuel st c0 cs d0 Ez Eck He Hfh Hfr Hdn Hf0 ltac:(lia) ltac:(lia) Hst0 ltac:(lia) Hh Hzd Hsz ltac:(lia))
+      destruct (import_z H zdecomp hd f fuel st c0 cs d0 Ez Eck He Hfh Hfr Hdn Hf0 ltac:(lia) Hst0 ltac:(lia) Hokif Hzd Hsz ltac:(lia))
         as (st1 & Hi & I1 & I2 & I3 & I4).
       exists st1. split; [exact Hi|]. split; [exact I1|]. split; [exact I3|]. split; [intros _; now right|]. split; congruence.
     - destruct Hsz as [Hcu ->].
@@ -412,7 +430,7 @@ Proof.
           constructor; [|now apply IH]. exists c, next, d. split; [exact Hsk|]. split; [reflexivity|]. split; [exact Hl|]. intros _; exact Hs.
     - destruct (skipn k cks) as [|c next] eqn:Hsk.
       { exfalso. assert (Hl : length (skipn k cks) = 0%nat) by now rewrite Hsk. rewrite skipn_length in Hl. lia. }
-      pose proof (skipn_in' k cks c next Hsk) as Hin. destruct (Hok c Hin) as [Hb Hh].
+      pose proof (skipn_in' k cks c next Hsk) as Hin. destruct (Hok c Hin) as (Hb & Hh & _).
       destruct (stored_req hd f st k c next Hsk He Hb) as (st' & -> & S1 & S2 & S3 & S4 & S5).
       constructor.
       + exists c, next. split; [exact Hsk|]. split; [reflexivity|]. intros Hne. apply bytes_eqb_eq. now apply Hh.
